@@ -331,9 +331,15 @@ class StmtGen:
                     self.mk.issued.append(("int", steps[-1][1][0]))
         return {"cls": self.cls, "sources": {}, "steps": steps}
 
+    def cte_prefix(self):
+        """WITH in front of a data-changing statement (the builders accept with_() for every statement kind)"""
+        if self.depth > 0 and self.flag("cte", 0.12):
+            return [["with_", [["q", self.subselect()], ["py", "cte%d" % self.mk.next()]]]]
+        return []
+
     def insert(self):
         k = self.d(st.sampled_from(PLAIN_KEYS))
-        steps = [["into", [["src", k]]]]
+        steps = self.cte_prefix() + [["into", [["src", k]]]]
         ncol = self.d(st.integers(1, 3))
         if self.d(st.booleans()):
             steps.append(["columns", [["py", c] for c in COLS[:ncol]]])
@@ -362,7 +368,7 @@ class StmtGen:
 
     def update(self):
         k = self.d(st.sampled_from(PLAIN_KEYS))
-        steps = [["update", [["src", k]]]]
+        steps = self.cte_prefix() + [["update", [["src", k]]]]
         for _ in range(self.d(st.integers(1, 2))):
             steps.append(["set", [self.d(st.sampled_from([["py", "a"], ["py", "b"], ["col", k, "c"]])), self.d(st.booleans()) and self.value() or ["add", ["col", k, "b"], self.value()]]])
         if self.flag("where", 0.7):
@@ -377,7 +383,7 @@ class StmtGen:
 
     def delete(self):
         k = self.d(st.sampled_from(PLAIN_KEYS))
-        steps = [["from_", [["src", k]]], ["delete", []]]
+        steps = self.cte_prefix() + [["from_", [["src", k]]], ["delete", []]]
         if self.flag("where", 0.8):
             steps.append(["where", [self.crit((k,), 1)]])
         if self.cls == "postgresql" and self.flag("returning", 0.3):
